@@ -162,8 +162,9 @@ def build_app(init: dict, log: List[dict], kind: int, mode: str = "cancel", inte
         async def h(app: Any) -> None:
             ev("call", name)
             if name in fails:
-                ev("call_fail", name)
-                raise Boom("handler " + name)
+                if name.endswith("su"):
+                    await fail_startup("call_fail", name)
+                fail_teardown("call_fail", name)
         return h
 
     root, sub = web.Application(), web.Application()
@@ -196,31 +197,44 @@ class LifeDriver:
             self.loop = None
         asyncio.set_event_loop(None)
 
-    def run(self, init: dict, kind: int, with_site: bool) -> dict:
+    def run(self, init: dict, kind: int, with_site: bool, mode: str = "cancel") -> dict:
         log: List[dict] = []
-        app = build_app(init, log, kind)
         if init["entry"] == "RunApp":
-            self._run_app(app, init, log)
+            self._run_app(init, log, kind, mode)
         else:
             if self.loop is None:
                 self.loop = asyncio.new_event_loop()
-            self.loop.run_until_complete(self._runner(app, init, log, with_site))
-        log.append({"ev": "end", "n": ""})
+            loop = self.loop
+            holder: Dict[str, Any] = {}
+            app = build_app(init, log, kind, mode, lambda: loop.call_soon(holder["task"].cancel))
+            holder["task"] = loop.create_task(self._runner(app, init, log, with_site))
+            loop.run_until_complete(holder["task"])
+        log.append({"ev": "end", "n": "", "k": ""})
         cfg = {"entry": init["entry"], "failStart": sorted(init["failStart"]), "failShut": sorted(init["failShut"]),
-               "failClean": sorted(init["failClean"]), "siteFails": bool(init["siteFails"])}
-        return {"cfg": cfg, "src": "tlc-init", "kind": kind, "with_site": bool(with_site), "events": log}
+               "failClean": sorted(init["failClean"]), "siteFails": bool(init["siteFails"]),
+               "startKind": init.get("startKind", "exc"), "cleanKind": init.get("cleanKind", "exc")}
+        return {"cfg": cfg, "src": "tlc-init", "kind": kind, "with_site": bool(with_site), "mode": mode, "events": log}
 
     async def _runner(self, app: Any, init: dict, log: List[dict], with_site: bool) -> None:
         from aiohttp import web
+
+        def ev(k: str, n: str) -> None:
+            log.append({"ev": k, "n": n, "k": ""})
+
+        def absorb() -> None:           # the caller handles the cancellation / exit request and goes on
+            task = asyncio.current_task()
+            while task is not None and task.cancelling():
+                task.uncancel()
 
         runner = web.AppRunner(app, shutdown_timeout=1.0)
         explicit = init["entry"] == "Runner"
         ok = True
         try:
             await runner.setup()
-            log.append({"ev": "setup", "n": "ok"})
-        except Exception:  # noqa: BLE001
-            log.append({"ev": "setup", "n": "raised"})
+            ev("setup", "ok")
+        except BaseException:  # noqa: BLE001  (Exception, CancelledError, GracefulExit)
+            absorb()
+            ev("setup", "raised")
             ok = False
             if not explicit:
                 return      # `await runner.setup()` sits before the caller's try/finally
@@ -228,17 +242,18 @@ class LifeDriver:
             try:
                 site = web.UnixSite(runner, self.bad if init["siteFails"] else self.good)
                 await site.start()
-                log.append({"ev": "site", "n": "ok"})
+                ev("site", "ok")
             except Exception:  # noqa: BLE001
-                log.append({"ev": "site", "n": "raised"})
-        log.append({"ev": "cleanup_call", "n": ""})
+                ev("site", "raised")
+        ev("cleanup_call", "")
         try:
             await runner.cleanup()
-            log.append({"ev": "cleanup", "n": "ok"})
-        except Exception:  # noqa: BLE001
-            log.append({"ev": "cleanup", "n": "raised"})
+            ev("cleanup", "ok")
+        except BaseException:  # noqa: BLE001
+            absorb()
+            ev("cleanup", "raised")
 
-    def _run_app(self, app: Any, init: dict, log: List[dict]) -> None:
+    def _run_app(self, init: dict, log: List[dict], kind: int, mode: str) -> None:
         from aiohttp import web
 
         loop = asyncio.new_event_loop()
@@ -247,15 +262,19 @@ class LifeDriver:
             raise web.GracefulExit()
 
         def on_running(*_a: Any) -> None:      # run_app's `print`: all sites are started
-            log.append({"ev": "running", "n": ""})
+            log.append({"ev": "running", "n": "", "k": ""})
             loop.call_soon(graceful_exit)      # what the SIGINT/SIGTERM handler does
 
+        # a stop signal during start-up: GracefulExit leaves the loop, run_app cancels the main task
+        app = build_app(init, log, kind, mode, lambda: loop.call_soon(graceful_exit))
         try:
             web.run_app(app, path=self.bad if init["siteFails"] else self.good, print=on_running, loop=loop,
                         handle_signals=False, shutdown_timeout=1.0, access_log=None)
-            log.append({"ev": "result", "n": "ok"})
-        except Exception:  # noqa: BLE001
-            log.append({"ev": "result", "n": "raised"})
+            log.append({"ev": "result", "n": "ok", "k": ""})
+        except BaseException as exc:  # noqa: BLE001
+            if isinstance(exc, (KeyboardInterrupt, MachineryError)):
+                raise
+            log.append({"ev": "result", "n": "raised", "k": ""})
         finally:
             if not loop.is_closed():
                 loop.close()
@@ -275,7 +294,8 @@ def a_enumerate_inits(ctx: Ctx, msf: int) -> List[dict]:
             raise MachineryError(f"cannot parse initial state {nodes[i]!r}")
         out.append({"entry": str(st["entry"]), "failStart": sorted(map(str, st["failStart"])),
                     "failShut": sorted(map(str, st["failShut"])), "failClean": sorted(map(str, st["failClean"])),
-                    "siteFails": bool(st["siteFails"])})
+                    "siteFails": bool(st["siteFails"]), "startKind": str(st["startKind"]),
+                    "cleanKind": str(st["cleanKind"])})
     out.sort(key=lambda d: json.dumps(d, sort_keys=True))
     if len(out) != res.distinct or not out:
         raise MachineryError(f"initial-state dump incomplete: {len(out)} parsed, TLC found {res.distinct}")
@@ -300,6 +320,10 @@ def a_describe(t: dict) -> str:
             parts.append(f"{k}={','.join(c[k])}")
     if c["siteFails"]:
         parts.append("siteFails")
+    if c.get("startKind", "exc") != "exc":
+        parts.append(f"start-up step ends with a BaseException ({t.get('mode', '?')})")
+    if c.get("cleanKind", "exc") != "exc":
+        parts.append("teardown steps raise CancelledError")
     parts.append(f"entered={','.join(ent) or '-'} exited={','.join(ext) or '-'}")
     return " ".join(parts)
 
@@ -316,7 +340,7 @@ def a_model_counterexample(ctx: Ctx, dev: str) -> Optional[dict]:
     """The ideal design with only this deviation switched on: TLC exhibits the counterexample."""
     full = ["ExactlyOnceIffStarted", "NeverExitUnstarted", "ReverseOrder", "ErrorsSurface"]
     res = run_tlc("AppLifecycle", a_cfg("dev_" + dev, {dev: False}, 1, full,
-                                        entries=["RunApp"] if dev == "SetupInTry" else ["Runner"]),
+                                        entries=["RunApp"] if dev in ("SetupInTry", "RunAppCatchesBase") else ["Runner"]),
                   workers=16, timeout=300)
     require_clean(res, f"AppLifecycle[{dev}=FALSE]")
     ctx.add_model(f"AppLifecycle[only {dev}=FALSE]", res, exhaustive=False)
@@ -334,8 +358,8 @@ def a_judge(ctx: Ctx, traces: List[dict]) -> Dict[str, int]:
     counts: Dict[str, int] = {}
     groups: Dict[str, List[dict]] = {}
     notes: Dict[str, int] = {}
-    for k in range(0, len(traces), 3000):
-        chunk = traces[k:k + 3000]
+    for k in range(0, len(traces), 8000):
+        chunk = traces[k:k + 8000]
         verdicts, res = a_validate(chunk)
         ctx.add_trace_batch(len(chunk), res)
         for t, v in zip(chunk, verdicts):
@@ -372,15 +396,18 @@ def run_part_a(ctx: Ctx) -> None:
     msf = ctx.pick(1, 2)
     full = ["ExactlyOnceIffStarted", "NeverExitUnstarted", "ReverseOrder", "ErrorsSurface"]
     # 1. the ideal design: every invariant, every fault mask x entry
-    res = run_tlc("AppLifecycle", a_cfg("ideal", {}, msf, full), workers=16, timeout=ctx.pick(300, 1200))
-    ok = ctx.expect_model_ok(f"AppLifecycle[ideal](start faults<={msf}, 3 entries)", res)
-    ctx.log(f"A model[ideal]: {res.distinct} states ok={ok} {res.wall_s:.0f}s")
+    same = all(CODE_AS_IS.values())       # every deviation repaired: the code as it is equals the ideal design
+    if not same:
+        res = run_tlc("AppLifecycle", a_cfg("ideal", {}, msf, full), workers=16, timeout=ctx.pick(300, 1200))
+        ok = ctx.expect_model_ok(f"AppLifecycle[ideal](start faults<={msf}, 3 entries)", res)
+        ctx.log(f"A model[ideal]: {res.distinct} states ok={ok} {res.wall_s:.0f}s")
     # 2. the code as it is: everything that goes wrong is one of the four named deviations
     res = run_tlc("AppLifecycle", a_cfg("ascoded", CODE_AS_IS, msf,
-                                        ["AsCodedExplained", "NeverExitUnstarted", "ReverseOrder", "ErrorsSurface"]),
+                                        (full if same else []) +
+                                        ["AsCodedExplained", "NeverExitUnstarted", "ReverseOrder", "ErrorsSurface"][0 if not same else 4:]),
                   workers=16, timeout=ctx.pick(300, 1200), coverage=True)
-    ok = ctx.expect_model_ok(f"AppLifecycle[as-coded](start faults<={msf}, 3 entries)", res)
-    ctx.log(f"A model[as-coded]: {res.distinct} states ok={ok} {res.wall_s:.0f}s")
+    ok = ctx.expect_model_ok(f"AppLifecycle[{'ideal = as-coded' if same else 'as-coded'}](start faults<={msf}, 3 entries)", res)
+    ctx.log(f"A model[{'ideal = as-coded' if same else 'as-coded'}]: {res.distinct} states ok={ok} {res.wall_s:.0f}s")
     for act, (_d, tot) in sorted(res.coverage.items()):
         if act in ("EntryPoint", "Propagate", "SignalSend", "CtxStartup", "CtxCleanup", "RunnerSetup", "RunnerCleanup"):
             ctx.action_cover["A:" + act] = tot
@@ -394,8 +421,11 @@ def run_part_a(ctx: Ctx) -> None:
     try:
         for i, init in enumerate(inits):
             kinds = [i % 3] if ctx.quick else [0, 1, 2]
+            modes = ["cancel"] if init["startKind"] == "exc" else \
+                ([BASE_MODES[(i // 3) % 3]] if ctx.quick else BASE_MODES)
             for kind in kinds:
-                traces.append(drv.run(init, kind, with_site=(i + kind) % 2 == 0))
+                for mode in modes:
+                    traces.append(drv.run(init, kind, with_site=(i + kind) % 2 == 0, mode=mode))
     finally:
         drv.close()
     ctx.log(f"A replayed {len(inits)} initial states -> {len(traces)} executions of the real Application")
@@ -905,16 +935,18 @@ def run_part_b(ctx: Ctx) -> None:
     models = ctx.pick([(2, [1, 3, 99], [0, 1, 3])], [(2, [1, 2, 3, 4, 99], [0, 1, 3, 5]), (3, [1, 3, 99], [1])])
     for nconn, durs, dts in models:
         tag = f"{nconn} conns, durs={durs}, deliveries at {dts}, T=2"
-        res = run_tlc("ServerShutdown", b_cfg("ideal", nconn, durs, dts, {}, B_INVS), workers=16,
-                      timeout=ctx.pick(400, 3000))
-        ok = ctx.expect_model_ok(f"ServerShutdown[ideal]({tag})", res)
-        ctx.log(f"B model[ideal] {tag}: {res.distinct} states ok={ok} {res.wall_s:.0f}s")
-        weak = {v[0]: v[1] for v in B_DEVS.values()}
+        same = all(B_ASCODED.values())     # both deviations repaired: as-coded = ideal, one run is enough
+        if not same:
+            res = run_tlc("ServerShutdown", b_cfg("ideal", nconn, durs, dts, {}, B_INVS), workers=16,
+                          timeout=ctx.pick(400, 3000))
+            ok = ctx.expect_model_ok(f"ServerShutdown[ideal]({tag})", res)
+            ctx.log(f"B model[ideal] {tag}: {res.distinct} states ok={ok} {res.wall_s:.0f}s")
+        weak = {} if same else {v[0]: v[1] for v in B_DEVS.values()}
         invs = [weak.get(i, i) for i in B_INVS]
         res = run_tlc("ServerShutdown", b_cfg("ascoded", nconn, durs, dts, B_ASCODED, invs),
                       workers=16, timeout=ctx.pick(400, 3000), coverage=True)
         ok = ctx.expect_model_ok(f"ServerShutdown[as-coded]({tag})", res)
-        ctx.log(f"B model[as-coded] {tag}: {res.distinct} states ok={ok} {res.wall_s:.0f}s")
+        ctx.log(f"B model[{'ideal = as-coded' if same else 'as-coded'}] {tag}: {res.distinct} states ok={ok} {res.wall_s:.0f}s")
         for act, (_d, tot) in sorted(res.coverage.items()):
             if act in ("Deliver", "HandlerDone", "StopSites", "PreShutdown", "WsCloseBegin", "WsCloseTimeout",
                        "SignalEnd", "SdWake", "SdTimeout1", "SdTimeout2", "SrvShutdownDone", "Cleanup", "Tick"):
@@ -1031,8 +1063,12 @@ def selftest(ctx: Ctx) -> int:
         good = drv.run({"entry": "Runner", "failStart": [], "failShut": [], "failClean": [], "siteFails": False}, 0, True)
         goodf = drv.run({"entry": "Runner", "failStart": [], "failShut": [], "failClean": ["r1"], "siteFails": False},
                         2, False)
+        intr = drv.run({"entry": "RunApp", "failStart": ["s1"], "failShut": [], "failClean": [], "siteFails": False,
+                        "startKind": "base", "cleanKind": "exc"}, 0, True, "interrupt")
     finally:
         drv.close()
+    nocleanup = copy.deepcopy(intr)      # what `except Exception: cleanup()` around setup() would log
+    nocleanup["events"] = [e for e in nocleanup["events"] if not e["ev"].startswith("exit") and e["n"] not in ("Rcl", "Scl")]
 
     def without(tr: dict, ev: str, n: str) -> dict:
         x = copy.deepcopy(tr)
@@ -1043,7 +1079,7 @@ def selftest(ctx: Ctx) -> int:
     dropped = without(without(good, "exit_begin", "s1"), "exit_done", "s1")
     twice = copy.deepcopy(good)
     k = next(i for i, e in enumerate(twice["events"]) if e["ev"] == "exit_done" and e["n"] == "r1")
-    twice["events"][k + 1:k + 1] = [{"ev": "exit_begin", "n": "r1"}, {"ev": "exit_done", "n": "r1"}]
+    twice["events"][k + 1:k + 1] = [{"ev": "exit_begin", "n": "r1", "k": ""}, {"ev": "exit_done", "n": "r1", "k": ""}]
     swapped = copy.deepcopy(good)
     for e in swapped["events"]:
         if e["ev"].startswith("exit") and e["n"] in ("r1", "r2"):
@@ -1056,7 +1092,7 @@ def selftest(ctx: Ctx) -> int:
     for e in silent["events"]:
         if e["ev"] == "cleanup":
             e["n"] = "ok"
-    vs, _ = a_validate([good, goodf, dropped, twice, swapped, unstarted, silent])
+    vs, _ = a_validate([good, goodf, dropped, twice, swapped, unstarted, silent, intr, nocleanup])
     print("A trace monitor:")
     expect("unmodified log", (vs[0].ok, vs[0].clause), (True, ""))
     expect("log with a failing exit of r1 (accepted, or the known CleanupErrorSkipsLaterExits)",
@@ -1066,12 +1102,14 @@ def selftest(ctx: Ctx) -> int:
     expect("exits of r1/r2 swapped", vs[4].clause, "ReverseOrder")
     expect("s2 exited although its enter failed", vs[5].clause, "ExitWithoutCompletedEnter")
     expect("failing exit not reported by cleanup()", vs[6].clause in ("ErrorsSurface", "CleanupErrorSkipsLaterExits"), True)
+    expect("run_app stopped by GracefulExit while s1's start-up code is suspended", (vs[7].ok, vs[7].clause), (True, ""))
+    expect("... same log without the exits of r1, r2", vs[8].clause, "ExactlyOnceIffStarted")
     # ---- A (ii): spec-level mutants
     print("A model mutants (ideal design with one mechanism disabled):")
     full = ["ExactlyOnceIffStarted", "NeverExitUnstarted", "ReverseOrder", "ErrorsSurface"]
     for dev in DEVS:
         res = run_tlc("AppLifecycle", a_cfg("mut_" + dev, {dev: False}, 1, full,
-                                            entries=["RunApp"] if dev == "SetupInTry" else ["Runner"]),
+                                            entries=["RunApp"] if dev in ("SetupInTry", "RunAppCatchesBase") else ["Runner"]),
                       workers=16, timeout=300)
         require_clean(res, "AppLifecycle mutant " + dev)
         expect(f"{dev}=FALSE", res.violated, "ExactlyOnceIffStarted")
@@ -1146,13 +1184,13 @@ def replay(ctx: Ctx, path: str) -> int:
     if d.get("part") == "A":
         drv = LifeDriver()
         try:
-            t = drv.run(tr["cfg"], int(tr.get("kind", 0)), bool(tr.get("with_site", True)))
+            t = drv.run(tr["cfg"], int(tr.get("kind", 0)), bool(tr.get("with_site", True)), tr.get("mode", "cancel"))
         finally:
             drv.close()
         vs, _ = a_validate([t])
         print("replay A:", a_describe(t))
         for e in t["events"]:
-            print("   ", e["ev"], e["n"])
+            print("   ", e["ev"], e["n"], e.get("k", ""))
     else:
         loop = steploop.new_loop()
         try:
